@@ -938,4 +938,246 @@ theorem hostileFrom_iff_exists : ∀ (ls : List (List UInt8)) (cur : Bool),
             simp only [acceptedRun, hacc] at hrun
             exact ⟨ps, l, post, cur', h2, hrun, hl⟩
 
+/-! ### the proposed guard `maps_text_is_safe`: it stops every panic and refuses no text that reads -/
+
+theorem mapEntryCols_path {line : List UInt8} {h : MapEntry} {path : List UInt8} (hc : mapEntryCols line = some (h, path)) :
+    (splitNByte 32 6 line)[5]? = some path := by
+  unfold mapEntryCols at hc
+  generalize splitNByte 32 6 line = cols at hc
+  rcases cols with _ | ⟨address, _ | ⟨perms, _ | ⟨offset, _ | ⟨dev, _ | ⟨inode, _ | ⟨path', _ | ⟨g, r⟩⟩⟩⟩⟩⟩⟩ <;> try cases hc
+  simp only at hc
+  split at hc
+  · cases hc
+  · split at hc
+    · split at hc
+      · cases hc
+      · split at hc
+        · cases hc
+        · split at hc
+          · split at hc
+            · cases hc
+            · cases hc; rfl
+          · cases hc
+    · cases hc
+
+theorem lineAccepted_utf8 {cur : Bool} {l : List UInt8} {c : Bool} (h : lineAccepted cur l = some c) : utf8Valid l = true := by
+  unfold lineAccepted at h
+  by_cases hu : utf8Valid l = true
+  · exact hu
+  · have hu' : utf8Valid l = false := by simpa using hu
+    simp [hu'] at h
+
+theorem hostileLine_guardBad {cur : Bool} {l : List UInt8} (h : HostileLine cur l = true) :
+    utf8Valid l = true ∧ guardLineBad l = true := by
+  unfold HostileLine at h
+  simp only [Bool.and_eq_true] at h
+  obtain ⟨hu, h⟩ := h
+  refine ⟨hu, ?_⟩
+  unfold guardLineBad
+  split at h
+  · rename_i hup
+    simp only [Bool.and_eq_true] at h
+    simp only [hup, ↓reduceIte]
+    exact h.2
+  · rename_i hup
+    have hup' : startsUpper l = false := by simpa using hup
+    simp only [hup', Bool.false_eq_true, ↓reduceIte]
+    cases hc : mapEntryCols l with
+    | none => rw [hc] at h; cases h
+    | some hp =>
+      obtain ⟨hd, path⟩ := hp
+      rw [hc] at h
+      rw [mapEntryCols_path hc]
+      exact h
+
+/-- **the guard is sound**: text on which the unguarded reader panics is refused -/
+theorem guard_sound : ∀ (ls : List (List UInt8)) (cur : Bool), hostileFrom ls cur = true → mapsGuardOk ls = false := by
+  intro ls
+  induction ls with
+  | nil => intro cur h; cases h
+  | cons l rest ih =>
+    intro cur h
+    unfold hostileFrom at h
+    unfold mapsGuardOk
+    by_cases hh : HostileLine cur l = true
+    · have ⟨hu, hb⟩ := hostileLine_guardBad hh
+      simp [hu, hb]
+    · simp only [hh, Bool.false_eq_true, ↓reduceIte] at h
+      cases hacc : lineAccepted cur l with
+      | none => rw [hacc] at h; cases h
+      | some c =>
+        rw [hacc] at h
+        have hu := lineAccepted_utf8 hacc
+        simp only [hu, Bool.not_true, Bool.false_eq_true, ↓reduceIte]
+        split
+        · rfl
+        · exact ih c h
+
+/-- **the guard is tight**: it refuses no text that the unguarded reader reads successfully -/
+theorem guard_tight : ∀ (ls : List (List UInt8)) (cur : Bool) (acc es : List MapEntry),
+    mapsGuardOk ls = false → (mapsLoopX ls cur acc).res ≠ .ok es := by
+  intro ls
+  induction ls with
+  | nil => intro cur acc es h; cases h
+  | cons l rest ih =>
+    intro cur acc es h hok
+    unfold mapsGuardOk at h
+    by_cases hu : utf8Valid l = true
+    · simp only [hu, Bool.not_true, Bool.false_eq_true, ↓reduceIte] at h
+      rw [mapsLoopX_res] at hok
+      unfold mapsLoop at hok
+      simp only [hu, Bool.not_true, Bool.false_eq_true, ↓reduceIte] at hok
+      have hsu : startsUpper l = ((l.head?.map fun c => decide (65 ≤ c ∧ c ≤ 90)) == some true) := rfl
+      rw [← hsu] at hok
+      by_cases hbad : guardLineBad l = true
+      · unfold guardLineBad at hbad
+        by_cases hup : startsUpper l = true
+        · simp only [hup, ↓reduceIte] at hok hbad
+          split at hok
+          · cases hok
+          · obtain ⟨_, hs, _⟩ := bind_ok hok
+            obtain ⟨p, hp⟩ := (smapsAttribute_panic_iff l).mpr hbad
+            rw [hp] at hs; cases hs
+        · have hup' : startsUpper l = false := by simpa using hup
+          simp only [hup', Bool.false_eq_true, ↓reduceIte] at hok hbad
+          obtain ⟨en, hen, _⟩ := bind_ok hok
+          rw [mapEntryOfLine_eq] at hen
+          cases hc : mapEntryCols l with
+          | none => rw [hc] at hen; cases hen
+          | some hp =>
+            obtain ⟨hd, path⟩ := hp
+            rw [hc] at hen
+            rw [mapEntryCols_path hc] at hbad
+            simp only at hen hbad
+            obtain ⟨_, hpath, _⟩ := bind_ok hen
+            obtain ⟨s, hs⟩ := (mapPathOf_panic_iff path).mpr hbad
+            rw [hs] at hpath; cases hpath
+      · simp only [hbad, Bool.false_eq_true, ↓reduceIte] at h
+        split at hok
+        · split at hok
+          · cases hok
+          · obtain ⟨_, _, hrest⟩ := bind_ok hok
+            rw [← mapsLoopX_res] at hrest
+            exact ih _ _ _ h hrest
+        · obtain ⟨en, _, hrest⟩ := bind_ok hok
+          rw [← mapsLoopX_res] at hrest
+          exact ih _ _ _ h hrest
+    · have hu' : utf8Valid l = false := by simpa using hu
+      simp [hu'] at h
+
+theorem mapsGuard_res : ∀ ls : List (List UInt8), (mapsGuard ls).res = .ok (mapsGuardOk ls) := by
+  intro ls
+  induction ls with
+  | nil => rfl
+  | cons l rest ih =>
+    unfold mapsGuard mapsGuardOk
+    have hab : ∀ {β : Type} (n sz : Nat) (ex : Bool) (f : Unit → M β), (M.alloc n sz ex >>= f).res = (f ()).res := by
+      intro β n sz ex f; rfl
+    rw [hab]
+    split
+    · rfl
+    · split
+      · rfl
+      · exact ih
+
+theorem mapsGuard_allocsLe {B : Nat} : ∀ ls : List (List UInt8), (∀ l ∈ ls, 2 * l.length ≤ B) → AllocsLe B (mapsGuard ls) := by
+  intro ls
+  induction ls with
+  | nil => intro _; exact allocsLe_pure _
+  | cons l rest ih =>
+    intro h
+    unfold mapsGuard
+    refine allocsLe_bind (allocsLe_alloc (by have := h l List.mem_cons_self; omega)) (fun _ _ => ?_)
+    split
+    · exact allocsLe_pure _
+    · split
+      · exact allocsLe_pure _
+      · exact ih (fun x hx => h x (List.mem_cons_of_mem _ hx))
+
+theorem cnt_mapsGuard : ∀ ls : List (List UInt8), CntLe ls.length (mapsGuard ls) := by
+  intro ls
+  induction ls with
+  | nil => exact cnt_pure _
+  | cons l rest ih =>
+    unfold mapsGuard
+    refine (cnt_bind (cnt_alloc _ _ _) (C := rest.length) (fun _ _ => ?_)).mono (by simp only [List.length_cons]; omega)
+    split
+    · exact (cnt_pure _).mono (by omega)
+    · split
+      · exact (cnt_pure _).mono (by omega)
+      · exact ih
+
+/-- the reader panics iff it is the unguarded one and the text is hostile -/
+theorem readLinuxMapsG_panic_iff (guarded : Bool) (b : Bytes) :
+    IsPanic (readLinuxMapsG guarded b) ↔ guarded = false ∧ MapsHostile b.toList := by
+  unfold readLinuxMapsG
+  cases guarded with
+  | false => simp only [Bool.false_eq_true, ↓reduceIte, true_and]; exact readLinuxMapsX_panic_iff b
+  | true =>
+    simp only [↓reduceIte, Bool.true_eq_false, false_and, iff_false]
+    rw [isPanic_bind]
+    intro h
+    cases h with
+    | inl h => obtain ⟨s, hs⟩ := h; rw [mapsGuard_res] at hs; cases hs
+    | inr h =>
+      obtain ⟨ok, hok, hp⟩ := h
+      rw [mapsGuard_res] at hok
+      cases hok
+      split at hp
+      · rename_i hg
+        have hh := (readLinuxMapsX_panic_iff b).mp hp
+        unfold MapsHostile at hh
+        have := guard_sound _ _ hh
+        rw [this] at hg; cases hg
+      · exact isPanic_fail _ hp
+
+/-- with the guard, a stream reads exactly when it read without it, with the same result -/
+theorem readLinuxMapsG_true_ok_iff (b : Bytes) (m : LinuxMapsX) :
+    (readLinuxMapsG true b).res = .ok m ↔ (readLinuxMapsX b).res = .ok m := by
+  unfold readLinuxMapsG
+  simp only [↓reduceIte]
+  rw [M.bind_def]; unfold M.bind'
+  rw [mapsGuard_res]
+  simp only
+  cases hg : mapsGuardOk (textLines b.toList) with
+  | true => simp only [↓reduceIte]
+  | false =>
+    simp only [Bool.false_eq_true, ↓reduceIte]
+    constructor
+    · intro h; cases h
+    · intro h
+      exfalso
+      unfold readLinuxMapsX at h
+      obtain ⟨es, hes, _⟩ := bind_ok h
+      exact guard_tight _ _ _ _ hg hes
+
+theorem readLinuxMapsG_ok {g : Bool} {b : Bytes} {m : LinuxMapsX} (h : (readLinuxMapsG g b).res = .ok m) :
+    (readLinuxMapsX b).res = .ok m := by
+  cases g with
+  | false => exact h
+  | true => exact (readLinuxMapsG_true_ok_iff b m).mp h
+
+theorem readLinuxMapsG_allocsLe (g : Bool) (b : Bytes) : AllocsLe (32 * b.size) (readLinuxMapsG g b) := by
+  unfold readLinuxMapsG
+  split
+  · have hw := textLines_weight b.toList
+    simp only [Array.length_toList] at hw
+    refine allocsLe_bind (mapsGuard_allocsLe _ (fun l hl => by have := mem_linesWeight hl; omega)) (fun ok _ => ?_)
+    split
+    · exact readLinuxMapsX_allocsLe b
+    · exact allocsLe_fail _
+  · exact readLinuxMapsX_allocsLe b
+
+theorem cnt_readLinuxMapsG (g : Bool) (b : Bytes) : CntLe (4 * b.size + 6) (readLinuxMapsG g b) := by
+  unfold readLinuxMapsG
+  split
+  · have hw := textLines_weight b.toList
+    have hl := length_le_linesWeight (textLines b.toList)
+    simp only [Array.length_toList] at hw
+    refine (cnt_bind (cnt_mapsGuard _) (C := 3 * b.size + 5) (fun ok _ => ?_)).mono (by omega)
+    split
+    · exact cnt_readLinuxMapsX b
+    · exact (cnt_fail _).mono (by omega)
+  · exact (cnt_readLinuxMapsX b).mono (by omega)
+
 end MdModel.Dump
